@@ -242,10 +242,56 @@ def correlated_cases():
     return [{"kind": "sq", "order": None, "spec": x} for x in out]
 
 
+BRACES = ["{", "}", "{}", "{0}", "{name}", "{{name}}", "{{", "x{y}z"]
+
+
+def brace_cases():
+    """string literals containing braces in every sub-query position: joined sub-query (ON / USING / CROSS), FROM, IN,
+    EXISTS, scalar comparison, select list -- in the sub-query's select list and in its WHERE"""
+    sel = lambda **kw: dict({"k": "sel", "cls": "SQLLiteQuery", "joins": []}, **kw)
+    S_ = lambda v: ["vals", v, None]
+    out = []
+    for n, b in enumerate(BRACES):
+        b2 = BRACES[(n + 3) % len(BRACES)]
+        sub = sel(**{"from": [T("u")], "selects": [["t", F("a", 0)], ["t", ["func", "COALESCE", [F("s", 0), S_(b)], "lbl"]]],
+                     "where": ["t", ["cplx", "or", ["basic", "ne", F("s", 0), S_(b2), None], ["isnull", F("s", 0), None], None]]})
+        on = ["on", ["t", ["basic", "eq", F("a", 0), F("a", 1), None]]]
+        how, cond = [("left", on), ("inner", ["using", ["a"]]), ("cross", ["cross"]), ("right", on)][n % 4]
+        out.append(sel(**{"from": [T("t")], "joins": [[how, ["q", sub], cond]],
+                          "selects": [["t", F("id", 0)], ["t", F("lbl", 1)]]}))
+        out.append(sel(**{"from": [["q", sub]], "selects": [["t", F("a", 0)], ["t", F("lbl", 0)]],
+                          "where": ["t", ["basic", "ne", F("lbl", 0), S_(b2), None]]}))
+        col = sel(**{"from": [T("v")], "selects": [["t", F("s", 0)]], "where": ["t", ["in", F("s", 0), ["tuple", [S_(b), S_(b2), S_("x")], None], False, None]]})
+        out.append(sel(**{"from": [T("t")], "selects": [["t", F("id", 0)], ["t", F("s", 0)]], "where": ["in", F("s", 0), col, n % 2 == 1]}))
+        out.append(sel(**{"from": [T("t")], "selects": [["t", F("id", 0)], ["sub", dict(sel(**{"from": [T("v")], "selects": [["t", ["func", "MAX", [["func", "COALESCE", [F("s", 0), S_(b)], None]], None]]]}), alias="m")]],
+                          "where": ["exists", sel(**{"from": [T("u")], "selects": [["t", F("id", 0)]],
+                                                     "where": ["t", ["basic", "eq", F("s", 0), S_(b), None]]}), n % 2 == 0]}))
+    return [{"kind": "sq", "order": o, "spec": x} for o, x in zip([None, 5] * len(out), out)]
+
+
+def empty_in_cases():
+    """x IN () / x NOT IN () -- alone, under AND, under OR, under NOT, in HAVING, in ON and inside a sub-query; several
+    seeds each, so that the list goes through Term.isin([]) / Term.notin([]) as well as through ContainsCriterion"""
+    sel = lambda **kw: dict({"k": "sel", "cls": "SQLLiteQuery", "joins": []}, **kw)
+    ein = lambda c, neg, i=0: ["in", F(c, i), ["tuple", [], None], neg, None]
+    gt = ["basic", "gt", F("b", 0), I(0), None]
+    base = lambda w: sel(**{"from": [T("t")], "selects": [["t", F("id", 0)], ["t", F("a", 0)]], "where": w})
+    cnt = ["func", "COUNT", [["star", None]], None]
+    specs = [base(["t", ein("a", False)]), base(["t", ein("a", True)]),
+             base(["t", ["cplx", "and", gt, ein("a", False), None]]), base(["t", ["cplx", "or", ein("a", False), gt, None]]),
+             base(["cplx", "and", ["t", gt], ["t", ein("s", True)]]), base(["t", ["not", ein("a", False), None]]),
+             sel(**{"from": [T("t")], "selects": [["t", F("a", 0)], ["t", cnt]], "groupby": [["t", F("a", 0)]],
+                    "having": ["t", ["in", ["func", "SUM", [F("b", 0)], None], ["tuple", [], None], False, None]]}),
+             sel(**{"from": [T("t")], "joins": [["left", T("u"), ["on", ["t", ["cplx", "and", ["basic", "eq", F("a", 0), F("a", 1), None], ein("b", False, 1), None]]]]],
+                    "selects": [["t", F("id", 0)], ["t", F("id", 1)]]}),
+             base(["exists", sel(**{"from": [T("u")], "selects": [["t", F("id", 0)]], "where": ["t", ein("a", False)]}), True])]
+    return [{"kind": "sq", "order": 2000 + k, "spec": x} for x in specs for k in range(4)]
+
+
 def corpus():
     sel = lambda **kw: dict({"k": "sel", "cls": "SQLLiteQuery", "joins": []}, **kw)
     cnt = ["func", "COUNT", [["star", None]], None]
-    return correlated_cases() + window_frame_cases() + form_cases() + naming_cases() + not_cases() + [
+    return brace_cases() + empty_in_cases() + correlated_cases() + window_frame_cases() + form_cases() + naming_cases() + not_cases() + [
         # F1: GROUP BY replaced by the select alias "b", which SQLite binds to the column t.b
         {"kind": "sq", "order": None, "spec": sel(
             **{"from": [T("t")], "selects": [["t", ["arith", "add", F("a", 0), I(1), "b"]], ["t", cnt]],
